@@ -265,7 +265,8 @@ pub fn run_case(case: &Case) -> Obs {
         case.budget_ops
     } else {
         // generous: every input byte read alone, every output byte written alone, plus slack
-        (world.input.len() as u64) * 4 + 200_000
+        // (and with short writes one operation per `write_limit` output bytes, for outputs up to 64 MiB)
+        (world.input.len() as u64) * 4 + 200_000 + if case.write_limit == usize::MAX { 0 } else { (64u64 << 20) / case.write_limit.max(1) as u64 }
     };
     if let Arrival::Pipelined(depth) = case.arrival {
         // exchange j (0 = handshake) is released once the client has seen the replies to all
@@ -371,6 +372,7 @@ pub fn run_case_tcp(case: &Case) -> Result<TcpObs, String> {
     let _ = stream.set_read_timeout(Some(std::time::Duration::from_secs(120)));
     let clock: Clock = Rc::new(std::cell::Cell::new(0));
     let (mut shim, log) = ScriptShim::new(clock, case.scripts.clone());
+    shim.tls = case.tls.clone();
     shim.auth_reject = case.auth_reject;
     shim.conv = case.conv;
     let _ = take_panic();
